@@ -36,6 +36,8 @@
 (*   NoUnalias     - a use spelled through a type alias is invisible       *)
 (*   CtorAnyType   - a constructor of one type is exempt for every          *)
 (*                   annotated type of its package                         *)
+(*   GroupDocLeaks - the doc comment of T reaches the next, undocumented   *)
+(*                   spec of its type group                                *)
 (*   RecvBySyntax  - a receiver spelled *TA / *(T) is not recognised as T  *)
 (*   CtorByBareName - the exemption is looked up under the current package *)
 (*                   and the bare type name: u's own type T (constructors  *)
@@ -54,7 +56,7 @@ vars == <<prog, fi, ci, ph, cur, recv, diags>>
 
 Kinds  == {"ctor1", "ctor2", "other", "pmeth", "vmeth", "cmeth", "ometh", "init", "pkgvar"}
 Stmts  == {"assignX", "assignM", "multiX", "compoundX", "compoundM", "incX", "decX", "incM", "indexXs", "indexMp",
-           "readX", "onU", "local", "recvAssign", "recvInc", "recvDec", "starPlain", "starPlainInc",
+           "readX", "onU", "onTG", "local", "recvAssign", "recvInc", "recvDec", "starPlain", "starPlainInc",
            "onHidden",   \* d.Hidden().X = v : hidden is an unexported type of d (@immutable iff T is) handed out by an exported function
            "onT2"}   \* q.X = v with q *T2, a second @immutable type of d with `@constructor NewT2` (iff T is @immutable)
 Nests  == {"none", "if", "else", "for", "range", "switch", "select", "funclit", "defer", "go", "label",
@@ -80,6 +82,8 @@ Valid(c, pkg) ==
   /\ (c.via = "r" => c.ptr = (c.kind = "pmeth"))
   /\ (c.stmt \in {"onT2", "onHidden", "local", "recvInc", "recvDec", "starPlain", "starPlainInc"} => c.ptr /\ c.sp = "direct" /\ c.via = "p")
   /\ (c.stmt = "onU" => c.ptr /\ c.sp \in {"direct", "fnalias"} /\ c.via = "p")
+  \* onTG: a write to d.TG, the undocumented spec that follows T inside one `type ( ... )` group (T's doc is not TG's)
+  /\ (c.stmt = "onTG" => c.ptr /\ c.sp = "direct" /\ c.via = "p" /\ c.kind \notin {"pmeth", "vmeth", "cmeth"})
   /\ (c.sp = "fnalias" => c.ptr /\ c.via = "p" /\ c.kind \in {"ctor1", "other", "init", "ometh"})
   \* `*r = v` on a plain *int that is merely *named* like the receivers of the methods (all receivers are called r)
   /\ (c.stmt \in {"starPlain", "starPlainInc"} => c.kind \in {"ctor1", "ctor2", "other", "init", "pkgvar", "ometh"})
@@ -119,7 +123,7 @@ UniqueCtors(fs) ==
   LET all == UNION {{<<f, i>> : i \in 1..Len(fs[f])} : f \in 1..Len(fs)}
   IN \A k \in {"ctor1", "ctor2"} : Cardinality({x \in all : fs[x[1]][x[2]].kind = k}) <= 1
 
-SeqStmts == {"assignX", "incX", "readX", "assignM", "starPlain", "onT2"}     \* (onHidden only in the single mode)
+SeqStmts == {"assignX", "incX", "readX", "assignM", "starPlain", "onT2", "onTG"}     \* (onHidden only in the single mode)
 SeqAnns  == {a \in Anns : a.imm /\ ~a.noise /\ a.ctors # <<"NewT", "MakeT">>}
 SeqCont(pkg) == {c \in {Cont(k, s, "p", TRUE, "none", "direct") : k \in Kinds \ {"cmeth", "ometh", "ctor2"}, s \in SeqStmts} : Valid(c, pkg)}
 
@@ -133,7 +137,7 @@ InitProg ==
           /\ prog = [ann |-> ann, pkg |-> pkg, files |-> OneFile(Cont(k, s, v, p, n, "direct"))]
   \/ /\ Mode = "spell"
      /\ \E ann \in {a \in Anns : ~a.noise}, pkg \in {"d", "u"}, k \in {"ctor1", "other", "init", "ometh"},
-          s \in Stmts \ {"onU", "local", "recvAssign", "recvInc", "recvDec"}, p \in BOOLEAN, sp \in Spells :
+          s \in Stmts \ {"onU", "onTG", "local", "recvAssign", "recvInc", "recvDec"}, p \in BOOLEAN, sp \in Spells :
           /\ Valid(Cont(k, s, "p", p, "none", sp), pkg)
           /\ prog = [ann |-> ann, pkg |-> pkg, files |-> OneFile(Cont(k, s, "p", p, "none", sp))]
   \/ /\ Mode = "spell"     \* ... and every spelling of a method's receiver type
@@ -190,6 +194,7 @@ VisitVerdict(c) ==
       exempt == (ownPkg /\ cur \in ctorsOfType) \/ twinExempt
   IN IF c.stmt \in {"starPlain", "starPlainInc"}
        THEN (IF prog.ann.imm /\ recv \in {"T", "C"} /\ ~exempt THEN (IF c.stmt = "starPlain" THEN "IMM01" ELSE "IMM03") ELSE "none")
+     ELSE IF c.stmt = "onTG" THEN (IF "GroupDocLeaks" \in Deviations /\ prog.ann.imm THEN "IMM01" ELSE "none")
      ELSE IF ~prog.ann.imm \/ code = "none" THEN "none"
      ELSE IF c.stmt \in {"recvAssign", "recvInc", "recvDec"}
        THEN (IF recv \in {"T", "C"} /\ ~exempt THEN code ELSE "none")
